@@ -38,6 +38,8 @@ def outcome_classes(transport):
         "garbage_then_silence": {"script": [["garbage", 3]]},
         "fragment_then_silence": {"script": [["lone", 9, 3]]},
         # answered in two pieces (both in time); answered by a first fragment followed by the complete frame (long read)
+        # slow, not dead: every transmission is answered, but far too late (the answers are still in flight afterwards)
+        "exhausted_by_late_answers": {"script": [["answer", 40]] * 8},
         "success_fragmented": {"script": [["frag", 9, 2, 6]]},
         "fragment_then_full_long": {"script": [["frag_then_full", 14, 2, 4]], "command": ["read", 35100, 8]},
     }
@@ -58,7 +60,7 @@ def outcome_classes(transport):
     return common
 
 
-def build_steps(transport, prefix, gap, probe):
+def build_steps(transport, prefix, gap, probe, R=2):
     steps = []
     classes = outcome_classes(transport)
     for name in prefix:
@@ -69,6 +71,9 @@ def build_steps(transport, prefix, gap, probe):
         else:
             st = dict(classes[name])
             st["op"] = "request"
+            if name == "exhausted_by_late_answers":
+                # every answer arrives only after the request has given up (later than (R+1) timeouts after its transmission)
+                st["script"] = [["answer", 16 * (R + 1) + 8]] * (R + 1)
             if "command" in st:
                 if transport == "aa55":
                     st = {"op": "request", "script": [["frag", 9, 2, 6]]}  # AA55 answers all have one length: plain fragmented success
@@ -103,7 +108,7 @@ def check_history(acc: Acc, case):
         probe_cmd = ["read", 35100, 1]
     else:
         raise ValueError(k)
-    steps = build_steps(transport, prefix, case.get("gap", 0), probe_script)
+    steps = build_steps(transport, prefix, case.get("gap", 0), probe_script, R)
     if probe_cmd and transport != "aa55":
         steps[-1]["command"] = probe_cmd
     full = dict(case)
